@@ -304,4 +304,663 @@ Section Ops.
         * constructor; [apply reward_tx_ok | constructor].
     - destruct (validate_refused_same _ _ _ _ _ _ _ _ _ _ _ _ Ev) as [-> _]. exact Hn.
   Qed.
+
+  (* ---- verification of a neighbor's answer ---- *)
+  Lemma add_block_raw_ok (c : cstate) (b : block) :
+    Forall block_ok (chain c) ->
+    (forall s, add_block_raw c b <> Err (EPanic s)) /\
+    (forall c', add_block_raw c b = Ok c' -> chain c' = chain c ++ [b]).
+  Proof.
+    intros Hc. unfold add_block_raw.
+    destruct (last_block (chain c)) as [l|] eqn:El.
+    - unfold apply_block.
+      destruct (update_utxos (ur c) (txs l) (b_ts l)) as [u'|e] eqn:Eu.
+      + split; [discriminate|]. intros c' Hk. injection Hk as <-. reflexivity.
+      + split; [|discriminate]. intros s Heq. injection Heq as ->.
+        exact (update_ok_no_panic _ _ _ s (last_block_ok _ _ Hc El) Eu).
+    - split; [discriminate|]. intros c' Hk. injection Hk as <-. reflexivity.
+  Qed.
+
+  Lemma verify_step_ok (lh : list block) (now : Z) (i : nat) (sh : cstate) (prev : option block)
+        (b : block) :
+    Forall block_ok (chain sh) ->
+    (forall s, verify_step lh now i sh prev b <> Err (EPanic s)) /\
+    (forall sh', verify_step lh now i sh prev b = Ok sh' -> chain sh' = chain sh ++ [b]).
+  Proof.
+    intros Hc. unfold Chain.verify_step. cbv zeta.
+    destruct (negb (hash_eqb (b_prev b) match prev with None => zero_hash | Some p => H p end));
+      [split; discriminate|].
+    match goal with
+    | |- (forall s, match ?X with _ => _ end <> _) /\ _ =>
+      assert (HX : forall s, X <> Err (EPanic s));
+        [|destruct X as [[]|e] eqn:EX]
+    end.
+    - intros s.
+      match goal with |- (if ?c then _ else _) <> _ => destruct c; [|discriminate] end.
+      apply verify_block_no_panic.
+    - destruct i as [|i'].
+      + split; [discriminate|]. intros sh' Hk. injection Hk as <-. reflexivity.
+      + apply add_block_raw_ok. exact Hc.
+    - split; [|discriminate]. intros s Heq. injection Heq as ->. exact (HX s eq_refl).
+  Qed.
+
+  Lemma verify_loop_ok (lh : list block) (now : Z) (l : list block) :
+    forall (i : nat) (sh : cstate) (prev : option block),
+      Forall block_ok (chain sh) -> Forall block_ok l ->
+      (forall s, verify_loop lh now i sh prev l <> Err (EPanic s)) /\
+      (forall sh', verify_loop lh now i sh prev l = Ok sh' -> Forall block_ok (chain sh')).
+  Proof.
+    induction l as [|b r IH]; intros i sh prev Hc Hl; cbn [Chain.verify_loop].
+    - split; [discriminate|]. intros sh' Hk. injection Hk as <-. exact Hc.
+    - inversion Hl as [|b0 r0 Hb Hr]; subst.
+      destruct (verify_step_ok lh now i sh prev b Hc) as [Hnp Hch].
+      destruct (verify_step lh now i sh prev b) as [sh1|e] eqn:Es.
+      + apply IH; [|exact Hr]. rewrite (Hch sh1 eq_refl). apply Forall_app.
+        split; [exact Hc | constructor; [exact Hb | constructor]].
+      + split; [|discriminate]. intros s Heq. injection Heq as ->. exact (Hnp s eq_refl).
+  Qed.
+
+  (* the end of verify (blockchain.go:358-363): AddBlock(next, nil, nil) *)
+  Lemma verify_tail_ok (lh : list block) (now : Z) (sh0 : cstate) (prev : option block)
+        (neigh : list block) (s : panic_site) :
+    Forall block_ok (chain sh0) -> Forall block_ok neigh ->
+    match verify_loop lh now 0 sh0 prev neigh with
+    | Err e => Err e
+    | Ok sh =>
+      match last_block (chain sh) with
+      | None => Ok neigh
+      | Some l =>
+        match add_block H sh (b_ts l + s_interval Se)%Z None [] with
+        | Err e => Err e
+        | Ok _ => Ok neigh
+        end
+      end
+    end <> Err (EPanic s).
+  Proof.
+    intros Hc Hn. destruct (verify_loop_ok lh now neigh 0 sh0 prev Hc Hn) as [Hnp Hok].
+    destruct (verify_loop lh now 0 sh0 prev neigh) as [sh|e] eqn:El.
+    - specialize (Hok sh eq_refl).
+      destruct (last_block (chain sh)) as [l|]; [|discriminate].
+      unfold add_block.
+      destruct (add_block_raw_ok sh (make_block H sh (b_ts l + s_interval Se) None []) Hok)
+        as [Ha _].
+      destruct (add_block_raw sh (make_block H sh (b_ts l + s_interval Se) None [])) as [c'|e] eqn:Ea;
+        [discriminate|].
+      intros Heq. injection Heq as ->. exact (Ha s eq_refl).
+    - intros Heq. injection Heq as ->. exact (Hnp s eq_refl).
+  Qed.
+
+  Lemma verify_no_panic (host : cstate) (lh neigh old : list block) (now : Z) (s : panic_site) :
+    Forall block_ok old -> Forall block_ok neigh ->
+    verify host lh neigh old now <> Err (EPanic s).
+  Proof.
+    intros Ho Hn. unfold Chain.verify.
+    destruct old as [|o old'].
+    - destruct neigh as [|b [|b' r]]; [discriminate | discriminate |].
+      cbv beta iota zeta.
+      apply verify_tail_ok; [constructor | exact Hn].
+    - destruct neigh as [|b r]; [discriminate|].
+      match goal with |- (if ?c then _ else _) <> _ => destruct c; [discriminate|] end.
+      cbv beta iota zeta.
+      apply verify_tail_ok; [exact Ho | exact Hn].
+  Qed.
+
+  (* ---- a sync round ---- *)
+  Definition nbs_ok (nbs : list neighbor) : Prop :=
+    forall nb, In nb nbs ->
+      (forall l, nb_inc nb = RBlocks l -> Forall block_ok l) /\
+      (forall l, nb_full nb = RBlocks l -> Forall block_ok l).
+
+  (* every candidate chain of the round is made of host blocks and answered blocks *)
+  Lemma candidates_ok (st : cstate) (now : Z) (nbs : list neighbor) (t : string) (c : list block) :
+    Forall block_ok (chain st) -> nbs_ok nbs ->
+    In (t, c) (candidates st now nbs) -> Forall block_ok c.
+  Proof.
+    intros Hc Hn Hin.
+    destruct (candidates_verified _ _ _ _ _ _ _ _ _ _ Hin)
+      as [(_ & -> & _)|(nb & Hnb & _ & [Hi|Hf])]; [exact Hc | |].
+    - destruct Hi as (l & v & Hinc & _ & Hv & ->).
+      apply verify_returns_input in Hv. subst v.
+      apply Forall_app. split; [apply removelast_ok; exact Hc|].
+      apply (proj1 (Hn nb Hnb) l Hinc).
+    - destruct Hf as (l & v & Hfull & Hv & ->).
+      apply verify_returns_input in Hv. subst v.
+      apply (proj2 (Hn nb Hnb) l Hfull).
+  Qed.
+
+  Lemma selected_ok (st : cstate) (now : Z) (nbs : list neighbor) (pref : string) (sel : list block) :
+    Forall block_ok (chain st) -> nbs_ok nbs ->
+    select pref (survivors st (candidates st now nbs)) = Some sel -> Forall block_ok sel.
+  Proof.
+    intros Hc Hn Hs. apply select_spec in Hs. destruct Hs as [[t Ht] _].
+    apply survivors_incl in Ht. exact (candidates_ok _ _ _ _ _ Hc Hn Ht).
+  Qed.
+
+  (* the commit loop (blockchain.go:251-258) runs UpdateUtxos on blocks of the selected chain:
+     whatever the registry it is run on, the call cannot be the one that panics *)
+  Lemma commit_no_panic (st : cstate) (now : Z) (nbs : list neighbor) (pref : string)
+        (sel : list block) (b : block) (u : ureg) (s : panic_site) :
+    Forall block_ok (chain st) -> nbs_ok nbs ->
+    select pref (survivors st (candidates st now nbs)) = Some sel -> In b sel ->
+    update_utxos u (txs b) (b_ts b) <> Err (EPanic s).
+  Proof.
+    intros Hc Hn Hs Hb. apply update_ok_no_panic.
+    pose proof (selected_ok _ _ _ _ _ Hc Hn Hs) as Hsel.
+    rewrite Forall_forall in Hsel. exact (Hsel b Hb).
+  Qed.
+
+  Lemma update_preserves_ok (st : cstate) (now : Z) (nbs : list neighbor) (pref : string) :
+    Forall block_ok (chain st) -> nbs_ok nbs ->
+    Forall block_ok (chain (fst (update st now nbs pref))).
+  Proof.
+    intros Hc Hn. destruct (update st now nbs pref) as [st' rep] eqn:Hu. cbn [fst].
+    destruct (update_cases _ _ _ _ _ _ _ _ _ _ _ Hu) as [(_ & Hch & _)|(_ & [t Ht] & _)].
+    - rewrite Hch. exact Hc.
+    - apply survivors_incl in Ht. exact (candidates_ok _ _ _ _ _ Hc Hn Ht).
+  Qed.
+
+  (* ---- any operation ---- *)
+  Definition op_inputs_ok (o : op) : Prop :=
+    match o with
+    | OpAdd t => tx_ok t
+    | OpUpdate _ nbs _ => nbs_ok nbs
+    | _ => True
+    end.
+
+  Theorem step_preserves_ok (n : node) (o : op) :
+    node_ok n -> op_inputs_ok o -> node_ok (step n o).
+  Proof.
+    intros Hn Ho. destruct o as [ts perm|t|now nbs pref|poh order]; cbn [Reach.step].
+    - apply validate_preserves_ok. exact Hn.
+    - destruct (pool_add n t) as [n'|e] eqn:Ea; [|exact Hn].
+      exact (pool_add_preserves_ok _ _ _ Hn Ho Ea).
+    - destruct Hn as [Hp Hc]. split; cbn [n_pool n_c]; [exact Hp|].
+      apply update_preserves_ok; assumption.
+    - destruct Hn as [Hp Hc]. split; cbn [n_pool n_c chain]; assumption.
+  Qed.
+
+  (* ------------------------------------------------------------------ *)
+  (* 4. the entry points                                                 *)
+  (* ------------------------------------------------------------------ *)
+  Variable on_curve : string -> bool.
+  Variable Hb : list N -> list N.
+
+  Notation handle_transaction := (Handlers.handle_transaction value_fn addr_of sig_ok Se on_curve Hb).
+  Notation handle_transaction_result :=
+    (Handlers.handle_transaction_result value_fn addr_of sig_ok Se on_curve Hb).
+  Notation response_of_answer := (Handlers.response_of_answer on_curve Hb).
+  Notation neighbor_of_answer := (Handlers.neighbor_of_answer on_curve Hb).
+  Notation sync_with := (Handlers.sync_with value_fn addr_of sig_ok H gen_id Se validator on_curve Hb).
+
+  Lemma handle_transaction_spec (n : node) (j : json) :
+    handle_transaction n j =
+    match handle_transaction_result n j with Ok n' => (n', true) | Err _ => (n, false) end.
+  Proof.
+    unfold Handlers.handle_transaction, Handlers.handle_transaction_result.
+    destruct (unmarshal_request on_curve Hb j) as [[[t|] g]|e]; reflexivity.
+  Qed.
+
+  Theorem C14_transaction_endpoint (j : json) (n : node) :
+    node_ok n ->
+    let '(n', ok) := handle_transaction n j in
+    node_ok n' /\ (ok = false -> n' = n) /\
+    forall s, handle_transaction_result n j <> Err (EPanic s).
+  Proof.
+    intros Hn. unfold Handlers.handle_transaction, Handlers.handle_transaction_result.
+    destruct (unmarshal_request on_curve Hb j) as [[[t|] g]|e] eqn:Eu.
+    - pose proof (decoded_request_ok _ _ _ _ _ Eu) as Ht.
+      destruct (pool_add n t) as [n'|e] eqn:Ea.
+      + split; [exact (pool_add_preserves_ok _ _ _ Hn Ht Ea)|]. split; [discriminate|].
+        discriminate.
+      + split; [exact Hn|]. split; [reflexivity|].
+        intros s Heq. rewrite Heq in Ea. exact (pool_add_no_panic _ _ s Hn Ht Ea).
+    - split; [exact Hn|]. split; [reflexivity | discriminate].
+    - split; [exact Hn|]. split; [reflexivity | discriminate].
+  Qed.
+
+  Lemma answers_ok (answers : list (string * json * json)) : nbs_ok (map neighbor_of_answer answers).
+  Proof.
+    intros nb Hnb. apply in_map_iff in Hnb. destruct Hnb as ([[t ji] jf] & <- & _).
+    unfold Handlers.neighbor_of_answer. cbn [nb_inc nb_full fst snd].
+    split; intros l Hl; exact (decoded_blocks_ok _ _ _ _ Hl).
+  Qed.
+
+  Lemma sync_preserves_ok (n : node) (now : Z) (answers : list (string * json * json)) (pref : string) :
+    node_ok n -> node_ok (sync_with n now answers pref).
+  Proof.
+    intros Hn. unfold Handlers.sync_with. apply step_preserves_ok; [exact Hn|].
+    cbn [op_inputs_ok]. apply answers_ok.
+  Qed.
+
+  Lemma bad_answers_all_fail (answers : list (string * json * json)) :
+    (forall t ji jf, In (t, ji, jf) answers ->
+                     bad_answer on_curve Hb ji /\ bad_answer on_curve Hb jf) ->
+    all_fail (map neighbor_of_answer answers).
+  Proof.
+    intros Hbad nb Hnb. apply in_map_iff in Hnb. destruct Hnb as ([[t ji] jf] & <- & Hin).
+    destruct (Hbad t ji jf Hin) as [Hi Hf].
+    unfold Handlers.neighbor_of_answer. cbn [nb_inc nb_full fst snd].
+    split; exists EDecode; apply bad_answer_fails; assumption.
+  Qed.
+
+  Theorem C14_sync_answer (answers : list (string * json * json)) (n : node) (now : Z) (pref : string) :
+    node_ok n ->
+    (* the invariant is kept *)
+    node_ok (sync_with n now answers pref) /\
+    (* no verify call on a decoded answer panics (incremental and full request) *)
+    (forall t ji jf l host lh now' s, In (t, ji, jf) answers ->
+       response_of_answer ji = RBlocks l \/ response_of_answer jf = RBlocks l ->
+       verify host lh l (removelast (chain (n_c n))) now' <> Err (EPanic s) /\
+       verify host lh l [] now' <> Err (EPanic s)) /\
+    (* no UpdateUtxos call of the commit loop panics *)
+    (forall sel b u s,
+       select pref (survivors (n_c n) (candidates (n_c n) now (map neighbor_of_answer answers)))
+       = Some sel ->
+       In b sel -> update_utxos u (txs b) (b_ts b) <> Err (EPanic s)) /\
+    (* answers that do not decode or hold a null block leave the node as it was *)
+    ((forall t ji jf, In (t, ji, jf) answers ->
+                      bad_answer on_curve Hb ji /\ bad_answer on_curve Hb jf) ->
+     sync_with n now answers pref = n).
+  Proof.
+    intros Hn. split; [apply sync_preserves_ok; exact Hn|]. split; [|split].
+    - intros t ji jf l host lh now' s _ Hr.
+      assert (Hl : Forall block_ok l)
+        by (destruct Hr as [Hr|Hr]; exact (decoded_blocks_ok _ _ _ _ Hr)).
+      split; apply verify_no_panic; try exact Hl; [|constructor].
+      apply removelast_ok. apply Hn.
+    - intros sel b u s Hs Hin.
+      exact (commit_no_panic _ _ _ _ _ _ _ _ (proj2 Hn) (answers_ok answers) Hs Hin).
+    - intros Hbad. unfold Handlers.sync_with. cbn [Reach.step].
+      rewrite (C13_failing_neighbors_ignored _ _ _ _ _ _ _ _ _ (bad_answers_all_fail _ Hbad)).
+      cbn [fst]. destruct n; reflexivity.
+  Qed.
+
+  (* ---- any sequence of operations whose inputs came through the decoders ---- *)
+  Inductive wire_op :=
+  | WTx (j : json)                                                       (* transaction endpoint *)
+  | WSync (now : Z) (answers : list (string * json * json)) (pref : string)   (* sync round *)
+  | WTick (ts : Z) (perm : list nat)                                     (* production tick *)
+  | WRefresh (poh : string -> option bool) (order : list string).        (* registry refresh *)
+  Definition ops_from_wire := list wire_op.
+
+  Definition wire_step (n : node) (w : wire_op) : node :=
+    match w with
+    | WTx j => fst (handle_transaction n j)
+    | WSync now answers pref => sync_with n now answers pref
+    | WTick ts perm => step n (OpValidate ts perm)
+    | WRefresh poh order => step n (OpRegSync poh order)
+    end.
+  Definition run_wire (n : node) (ops : ops_from_wire) : node := fold_left wire_step ops n.
+
+  (* "operation [w], run in state [n], reaches panic site [s]": every result the model
+     computes on the way is listed, including those the code only logs *)
+  Definition wire_panic (n : node) (w : wire_op) (s : panic_site) : Prop :=
+    match w with
+    | WTx j => handle_transaction_result n j = Err (EPanic s)
+    | WSync now answers pref =>
+      (exists t ji jf l host lh now',
+          In (t, ji, jf) answers /\
+          (response_of_answer ji = RBlocks l \/ response_of_answer jf = RBlocks l) /\
+          (verify host lh l (removelast (chain (n_c n))) now' = Err (EPanic s) \/
+           verify host lh l [] now' = Err (EPanic s))) \/
+      (exists sel b u,
+          select pref (survivors (n_c n) (candidates (n_c n) now (map neighbor_of_answer answers)))
+          = Some sel /\ In b sel /\ update_utxos u (txs b) (b_ts b) = Err (EPanic s))
+    | WTick ts perm =>
+      snd (validate n ts perm) = Refused (EPanic s) \/
+      (exists dropped id,
+          snd (validate n ts perm) = Produced dropped /\
+          (In (id, DFee (EPanic s)) dropped \/ In (id, DUpdate (EPanic s)) dropped))
+    | WRefresh _ _ => False
+    end.
+
+  Lemma wire_step_preserves_ok (n : node) (w : wire_op) : node_ok n -> node_ok (wire_step n w).
+  Proof.
+    intros Hn. destruct w as [j|now answers pref|ts perm|poh order]; cbn [wire_step].
+    - pose proof (C14_transaction_endpoint j n Hn) as Ht.
+      destruct (handle_transaction n j) as [n' ok]. cbn [fst]. apply Ht.
+    - apply sync_preserves_ok. exact Hn.
+    - apply step_preserves_ok; [exact Hn | exact I].
+    - apply step_preserves_ok; [exact Hn | exact I].
+  Qed.
+
+  Lemma run_wire_preserves_ok (ops : ops_from_wire) : forall n, node_ok n -> node_ok (run_wire n ops).
+  Proof.
+    unfold run_wire. induction ops as [|w r IH]; intros n Hn; cbn [fold_left]; [exact Hn|].
+    apply IH. apply wire_step_preserves_ok. exact Hn.
+  Qed.
+
+  Lemma wire_no_panic (n : node) (w : wire_op) (s : panic_site) : node_ok n -> ~ wire_panic n w s.
+  Proof.
+    intros Hn. destruct w as [j|now answers pref|ts perm|poh order]; cbn [wire_panic].
+    - pose proof (C14_transaction_endpoint j n Hn) as Ht.
+      destruct (handle_transaction n j) as [n' ok]. apply Ht.
+    - destruct (C14_sync_answer answers n now pref Hn) as (_ & Hv & Hc & _).
+      intros [(t & ji & jf & l & host & lh & now' & Hin & Hr & He)|(sel & b & u & Hs & Hb0 & He)].
+      + destruct (Hv t ji jf l host lh now' s Hin Hr) as [A B]. destruct He as [He|He]; contradiction.
+      + exact (Hc sel b u s Hs Hb0 He).
+    - intros [He|(dropped & id & Hd & Hin)].
+      + exact (validate_no_panic n ts perm s Hn He).
+      + destruct (validate_drops_no_panic n ts perm dropped id s Hn Hd) as [A B].
+        destruct Hin as [Hin|Hin]; contradiction.
+    - intros [].
+  Qed.
+
+  Theorem C14_then_any_operations (n : node) (ops : ops_from_wire) :
+    node_ok n ->
+    node_ok (run_wire n ops) /\
+    forall pre w post s, ops = pre ++ w :: post -> ~ wire_panic (run_wire n pre) w s.
+  Proof.
+    intros Hn. split; [apply run_wire_preserves_ok; exact Hn|].
+    intros pre w post s _. apply wire_no_panic. apply run_wire_preserves_ok. exact Hn.
+  Qed.
+
+  (* in particular from the empty node (a fresh process) *)
+  Corollary C14_from_boot (ops : ops_from_wire) :
+    node_ok (run_wire node_empty ops) /\
+    forall pre w post s, ops = pre ++ w :: post -> ~ wire_panic (run_wire node_empty pre) w s.
+  Proof. apply C14_then_any_operations. exact node_empty_ok. Qed.
 End Ops.
+
+(* ------------------------------------------------------------------ *)
+(* 5. the read-only endpoints                                          *)
+(* ------------------------------------------------------------------ *)
+(* blocks: the only panic site is the slice expression of blockchain.go:72, unreachable when
+   length + BlocksCountLimit fits in a uint64 (proofs/Paging_lemmas.v) *)
+Theorem C14_blocks_endpoint (Se : settings) (n : node) (j : json) (s : panic_site) :
+  (N.of_nat (length (chain (n_c n))) + s_limit Se <= two64)%N ->
+  handle_blocks Se n j <> Ok (Err (EPanic s)).
+Proof.
+  intros Hsane. unfold handle_blocks.
+  destruct (dec_uint u64_bound 0 j) as [h|e]; [|discriminate].
+  destruct (blocks_page_no_panic Se (chain (n_c n)) h Hsane) as [p Hp]. rewrite Hp. discriminate.
+Qed.
+
+Lemma handle_blocks_null (Se : settings) (n : node) :
+  handle_blocks Se n JNull = Ok (blocks_page Se (chain (n_c n)) 0).
+Proof. reflexivity. Qed.
+
+Lemma handle_blocks_wrong_type (Se : settings) (n : node) (j : json) :
+  (forall z, j <> JNum z) -> j <> JNull -> handle_blocks Se n j = Err DType.
+Proof. intros Hz Hn. unfold handle_blocks. destruct j; try reflexivity; congruence. Qed.
+
+Lemma handle_blocks_range (Se : settings) (n : node) (z : Z) :
+  (z < 0 \/ u64_bound <= z)%Z -> handle_blocks Se n (JNum z) = Err DRange.
+Proof.
+  intros Hz. unfold handle_blocks, dec_uint.
+  destruct (Z.leb_spec 0 z); destruct (Z.ltb_spec z u64_bound); cbn [andb]; try reflexivity; lia.
+Qed.
+
+(* utxos and targets: decode, then a total function; nothing to panic on *)
+Lemma handle_utxos_null (n : node) : handle_utxos n JNull = Ok (utxos_of (ur (n_c n)) EmptyString).
+Proof. reflexivity. Qed.
+Lemma handle_utxos_total (n : node) (j : json) :
+  handle_utxos n j = Err DType \/ exists a, handle_utxos n j = Ok (utxos_of (ur (n_c n)) a).
+Proof. unfold handle_utxos. destruct j; cbn; eauto. Qed.
+Lemma handle_targets_null : handle_targets JNull = Ok [].
+Proof. reflexivity. Qed.
+Lemma handle_targets_null_elem : handle_targets (JArr [JNull; JStr "a"; JNull]) = Ok [EmptyString; "a"%string; EmptyString].
+Proof. reflexivity. Qed.
+
+(* ------------------------------------------------------------------ *)
+(* 6. what the decoders refuse                                         *)
+(* ------------------------------------------------------------------ *)
+Lemma dec_seq_app {A} (dec : A -> json -> res derr A) (l1 l2 : list json) : forall cur,
+  dec_seq dec (l1 ++ l2) cur =
+  match dec_seq dec l1 cur with Ok c => dec_seq dec l2 c | Err e => Err e end.
+Proof.
+  induction l1 as [|j r IH]; intros cur; cbn [dec_seq app]; [reflexivity|].
+  destruct (dec cur j) as [a|e]; [apply IH | reflexivity].
+Qed.
+
+Lemma map_res_null {A} (um : json -> res derr A) (l : list json) : forall l',
+  In JNull l -> map_res (dec_ptr um) l = Ok l' -> In None l'.
+Proof.
+  induction l as [|j r IH]; intros l' Hin Hm; [destruct Hin|].
+  cbn [map_res] in Hm.
+  destruct (dec_ptr um j) as [b|e] eqn:Ej; [|discriminate].
+  destruct (map_res (dec_ptr um) r) as [bs|e] eqn:Er; [|discriminate].
+  injection Hm as <-. destruct Hin as [Hin|Hin].
+  - subst j. cbn in Ej. injection Ej as <-. left. reflexivity.
+  - right. apply IH; [exact Hin | reflexivity].
+Qed.
+
+Lemma all_some_null {A} (l : list (option A)) : In None l -> all_some l = Err DNullElem.
+Proof.
+  induction l as [|[a|] r IH]; intros Hin; cbn [all_some]; [destruct Hin| |reflexivity].
+  destruct Hin as [Hin|Hin]; [discriminate|]. rewrite (IH Hin). reflexivity.
+Qed.
+
+Lemma no_nulls_null {A} (s : slice (option A)) : In None (elems s) -> no_nulls s = Err DNullElem.
+Proof.
+  destruct s as [l|]; cbn [elems no_nulls]; intros Hin; [|destruct Hin].
+  rewrite (all_some_null l Hin). reflexivity.
+Qed.
+
+Lemma all_some_err {A} (l : list (option A)) (e : derr) : all_some l = Err e -> e = DNullElem.
+Proof.
+  induction l as [|[a|] r IH]; cbn [all_some]; intros He; [discriminate| |congruence].
+  destruct (all_some r) as [x|e0]; [discriminate|]. injection He as <-. apply IH. reflexivity.
+Qed.
+
+Lemma no_nulls_err {A} (s : slice (option A)) (e : derr) : no_nulls s = Err e -> e = DNullElem.
+Proof.
+  destruct s as [l|]; cbn [no_nulls]; intros He; [|discriminate].
+  destruct (all_some l) as [x|e0] eqn:Ea; [discriminate|]. injection He as <-.
+  exact (all_some_err l e0 Ea).
+Qed.
+
+Lemma no_nulls_elems {A} (s : slice (option A)) (s' : slice A) :
+  no_nulls s = Ok s' -> elems s = [] -> elems s' = [].
+Proof.
+  destruct s as [l|]; cbn [no_nulls elems]; intros Hn He.
+  - subst l. cbn in Hn. injection Hn as <-. reflexivity.
+  - injection Hn as <-. reflexivity.
+Qed.
+
+(* the value of a slice field is decided by the last occurrence of its key *)
+Lemma field_last_null {A} (um : json -> res derr A) (name : string) (fs : list (string * json))
+      (pre l : list json) (v : slice (option A)) :
+  get_fields name fs = pre ++ [JArr l] -> In JNull l ->
+  dec_field (dec_slice (dec_ptr um)) name fs None = Ok v -> In None (elems v).
+Proof.
+  intros Hg Hin Hd. unfold dec_field in Hd. rewrite Hg, dec_seq_app in Hd.
+  destruct (dec_seq (dec_slice (dec_ptr um)) pre None) as [c|e]; [|discriminate].
+  cbn [dec_seq dec_slice] in Hd.
+  destruct (map_res (dec_ptr um) l) as [x|e] eqn:Em; [|discriminate].
+  injection Hd as <-. cbn [elems]. exact (map_res_null um l x Hin Em).
+Qed.
+
+Lemma field_last_empty {A} (um : json -> res derr A) (name : string) (fs : list (string * json))
+      (v : slice (option A)) :
+  get_fields name fs = [] \/
+  (exists pre, get_fields name fs = pre ++ [JNull] \/ get_fields name fs = pre ++ [JArr []]) ->
+  dec_field (dec_slice (dec_ptr um)) name fs None = Ok v -> elems v = [].
+Proof.
+  unfold dec_field. intros [Hg|[pre [Hg|Hg]]] Hd; rewrite Hg in Hd.
+  - cbn in Hd. injection Hd as <-. reflexivity.
+  - rewrite dec_seq_app in Hd.
+    destruct (dec_seq (dec_slice (dec_ptr um)) pre None) as [c|e]; [|discriminate].
+    cbn in Hd. injection Hd as <-. reflexivity.
+  - rewrite dec_seq_app in Hd.
+    destruct (dec_seq (dec_slice (dec_ptr um)) pre None) as [c|e]; [|discriminate].
+    cbn in Hd. injection Hd as <-. reflexivity.
+Qed.
+
+Section Rejected.
+  Variable on_curve : string -> bool.
+  Variable Hb : list N -> list N.
+
+  (* ---- no outputs ---- *)
+  (* go: transaction.go:63: inputs but no output *)
+  Theorem C14_no_outputs_rejected (fs : list (string * json)) (id : string)
+          (i0 : slice (option input)) (o0 : slice (option output)) (ts : Z)
+          (i : slice input) (o : slice output) :
+    dec_field dec_str "id" fs EmptyString = Ok id ->
+    dec_field (dec_slice (dec_ptr (unmarshal_input on_curve))) "inputs" fs None = Ok i0 ->
+    dec_field (dec_slice (dec_ptr unmarshal_output)) "outputs" fs None = Ok o0 ->
+    dec_field dec_i64 "timestamp" fs 0%Z = Ok ts ->
+    no_nulls i0 = Ok i -> no_nulls o0 = Ok o ->
+    elems o = [] ->
+    (* whatever the id says, the transaction is refused *)
+    (exists e, unmarshal_tx on_curve Hb (JObj fs) = Err e) /\
+    (* and with the right id the reason is the missing output *)
+    (id = gen_id Hb i o ts -> elems i <> [] -> unmarshal_tx on_curve Hb (JObj fs) = Err DNoOutput) /\
+    (id = gen_id Hb i o ts -> elems i = [] -> unmarshal_tx on_curve Hb (JObj fs) = Err DNoReward).
+  Proof.
+    intros E1 E2 E3 E4 E5 E6 Ho. unfold unmarshal_tx.
+    rewrite E1; cbn [bind]. rewrite E2; cbn [bind]. rewrite E3; cbn [bind].
+    rewrite E4; cbn [bind]. rewrite E5; cbn [bind]. rewrite E6; cbn [bind].
+    unfold tx_shape. rewrite Ho.
+    destruct (String.eqb (gen_id Hb i o ts) id) eqn:Eq; cbn [negb].
+    - split; [destruct (elems i); cbn [bind]; eexists; reflexivity|].
+      split; intros _ Hi; destruct (elems i); try congruence; reflexivity.
+    - split; [eexists; reflexivity|].
+      split; intros Hid; subst id; rewrite String.eqb_refl in Eq; discriminate.
+  Qed.
+
+  (* the same at tree level: no "outputs" key, or its last occurrence is null or [] *)
+  Theorem C14_no_outputs_tree_rejected (fs : list (string * json)) :
+    get_fields "outputs" fs = [] \/
+    (exists pre, get_fields "outputs" fs = pre ++ [JNull] \/
+                 get_fields "outputs" fs = pre ++ [JArr []]) ->
+    exists e, unmarshal_tx on_curve Hb (JObj fs) = Err e.
+  Proof.
+    intros Hg. destruct (unmarshal_tx on_curve Hb (JObj fs)) as [t|e] eqn:Eu;
+      [exfalso | eexists; reflexivity].
+    pose proof (unmarshal_tx_nonempty _ _ _ _ Eu) as Hne.
+    unfold unmarshal_tx in Eu.
+    bind_inv Eu as a E Hb0. bind_inv Hb0 as a0 E0 Hb1. bind_inv Hb1 as a1 E1 Hb2.
+    bind_inv Hb2 as a2 E2 Hb3. bind_inv Hb3 as a3 E3 Hb4. bind_inv Hb4 as a4 E4 Hb5.
+    destruct (negb (String.eqb (gen_id Hb a3 a4 a2) a)); [discriminate|].
+    bind_inv Hb5 as a5 E5 Hb6. injection Hb6 as <-.
+    apply Hne. unfold outs. cbn [t_outs].
+    apply (no_nulls_elems _ _ E4). exact (field_last_empty _ _ _ _ Hg E1).
+  Qed.
+
+  (* ---- null elements ---- *)
+  (* go: transaction.go:47,52 *)
+  Theorem C14_null_elements_rejected (fs : list (string * json)) (pre l : list json) :
+    get_fields "inputs" fs = pre ++ [JArr l] \/ get_fields "outputs" fs = pre ++ [JArr l] ->
+    In JNull l ->
+    exists e, unmarshal_tx on_curve Hb (JObj fs) = Err e.
+  Proof.
+    intros Hg Hin. destruct (unmarshal_tx on_curve Hb (JObj fs)) as [t|e] eqn:Eu;
+      [exfalso | eexists; reflexivity].
+    unfold unmarshal_tx in Eu.
+    bind_inv Eu as a E Hb0. bind_inv Hb0 as a0 E0 Hb1. bind_inv Hb1 as a1 E1 Hb2.
+    bind_inv Hb2 as a2 E2 Hb3. bind_inv Hb3 as a3 E3 Hb4. bind_inv Hb4 as a4 E4 Hb5.
+    destruct Hg as [Hg|Hg].
+    - rewrite (no_nulls_null a0 (field_last_null _ _ _ _ _ _ Hg Hin E0)) in E3. discriminate.
+    - rewrite (no_nulls_null a1 (field_last_null _ _ _ _ _ _ Hg Hin E1)) in E4. discriminate.
+  Qed.
+
+  (* when the four fields decode, the reason is the null element *)
+  Theorem C14_null_elements_reason (fs : list (string * json)) (id : string)
+          (i0 : slice (option input)) (o0 : slice (option output)) (ts : Z) :
+    dec_field dec_str "id" fs EmptyString = Ok id ->
+    dec_field (dec_slice (dec_ptr (unmarshal_input on_curve))) "inputs" fs None = Ok i0 ->
+    dec_field (dec_slice (dec_ptr unmarshal_output)) "outputs" fs None = Ok o0 ->
+    dec_field dec_i64 "timestamp" fs 0%Z = Ok ts ->
+    In None (elems i0) \/ In None (elems o0) ->
+    unmarshal_tx on_curve Hb (JObj fs) = Err DNullElem.
+  Proof.
+    intros E1 E2 E3 E4 Hnull. unfold unmarshal_tx.
+    rewrite E1; cbn [bind]. rewrite E2; cbn [bind]. rewrite E3; cbn [bind].
+    rewrite E4; cbn [bind].
+    destruct (no_nulls i0) as [i|e] eqn:Ei; cbn [bind].
+    - destruct Hnull as [Hn|Hn]; [rewrite (no_nulls_null i0 Hn) in Ei; discriminate|].
+      rewrite (no_nulls_null o0 Hn). reflexivity.
+    - rewrite (no_nulls_err i0 e Ei). reflexivity.
+  Qed.
+
+  (* go: block.go:37 *)
+  Theorem C14_null_transaction_rejected (fs : list (string * json)) (pre l : list json) :
+    get_fields "transactions" fs = pre ++ [JArr l] -> In JNull l ->
+    exists e, unmarshal_block on_curve Hb (JObj fs) = Err e.
+  Proof.
+    intros Hg Hin. destruct (unmarshal_block on_curve Hb (JObj fs)) as [b|e] eqn:Eu;
+      [exfalso | eexists; reflexivity].
+    unfold unmarshal_block in Eu.
+    bind_inv Eu as a E Hb0. bind_inv Hb0 as a0 E0 Hb1. bind_inv Hb1 as a1 E1 Hb2.
+    bind_inv Hb2 as a2 E2 Hb3. bind_inv Hb3 as a3 E3 Hb4. bind_inv Hb4 as a4 E4 Hb5.
+    rewrite (no_nulls_null a3 (field_last_null _ _ _ _ _ _ Hg Hin E3)) in E4. discriminate.
+  Qed.
+
+  (* go: blockchain.go:285-289 *)
+  Theorem C14_null_block_rejected (l : list json) :
+    In JNull l -> response_of_answer on_curve Hb (JArr l) = RFail EDecode.
+  Proof.
+    intros Hin. apply bad_answer_fails. unfold bad_answer, unmarshal_blocks.
+    destruct (map_res (dec_ptr (unmarshal_block on_curve Hb)) l) as [x|e] eqn:Em.
+    - right. exists x. split; [reflexivity | exact (map_res_null _ l x Hin Em)].
+    - left. exists e. reflexivity.
+  Qed.
+
+  (* trees of the wrong kind *)
+  Lemma C14_wrong_kind_rejected (j : json) :
+    (forall fs, j <> JObj fs) ->
+    unmarshal_tx on_curve Hb j = Err DType /\ unmarshal_block on_curve Hb j = Err DType /\
+    unmarshal_request on_curve Hb j = Err DType.
+  Proof. intros Hj. destruct j; try (repeat split; reflexivity). exfalso. exact (Hj l eq_refl). Qed.
+End Rejected.
+
+(* ------------------------------------------------------------------ *)
+(* 7. the panic sites are real                                         *)
+(* ------------------------------------------------------------------ *)
+(* utxos_registry.go:99: a transaction with an empty outputs list that reaches UpdateUtxos *)
+Lemma update_utxos_empty_outputs_panics (reg : ureg) (t : tx) (r : list tx) (ts : Z) :
+  outs t = [] -> alookup (t_id t) (by_id reg) = None ->
+  update_utxos reg (t :: r) ts = Err (EPanic PsNoOutputs).
+Proof.
+  intros Ho Hid. unfold update_utxos. cbn [apply_txs]. unfold apply_tx, records_outputs.
+  rewrite Hid, Ho. reflexivity.
+Qed.
+
+Module PanicExample.
+  Local Open Scope string_scope.
+  Definition vf : N -> bool -> Z -> N := fun v _ _ => v.
+  Definition ao : string -> string := fun k => k.
+  Definition so : input -> bool := fun _ => true.
+  Definition Sx : settings := mkSettings 10 0 100 8.
+  (* a well-formed value that json.Unmarshal of the pinned tree produced from
+     {"id":...,"inputs":[],"outputs":[],"timestamp":10} *)
+  Definition t_empty : tx := mkTx "x" (Some []) (Some []) 10.
+  Definition g : block := mkBlock zero_hash None None 10 None.
+  Definition n1 : node := mkNode (mkC [g] ureg_empty areg_empty) None.
+
+  (* toy oracles and JSON trees for the examples of props/C14.v *)
+  Definition Hk : block -> hash := fun _ => zero_hash.
+  Definition gid : slice input -> slice output -> Z -> string := fun _ _ _ => "r".
+  Definition S1 : settings := mkSettings 10 1 100 8.
+  Definition oc : string -> bool := fun _ => true.
+  Definition Hz : list N -> list N := fun _ => [].      (* every id is "" *)
+  Fixpoint rep (n : nat) (c : ascii) : string :=
+    match n with O => "" | S k => String c (rep k c) end.
+  Definition key : string := "0x04" ++ rep 128 "a".
+  Definition sg : string := rep 128 "b".
+  Definition jin : json :=
+    JObj [("output_index", JNum 0); ("transaction_id", JStr "r");
+          ("public_key", JStr key); ("signature", JStr sg)].
+  Definition jout : json :=
+    JObj [("address", JStr "A"); ("is_yielding", JBool false); ("value", JNum 5)].
+  Definition jtx (ins outs : json) : json :=
+    JObj [("id", JStr ""); ("inputs", ins); ("outputs", outs); ("timestamp", JNum 10)].
+  Definition jreq (t : json) : json :=
+    JObj [("Transaction", t); ("TransactionBroadcasterTarget", JStr "h:1")].
+  Definition jblock (ts : Z) (l : json) : json :=
+    JObj [("previous_hash", JArr []); ("timestamp", JNum ts); ("transactions", l)].
+  (* the node after its genesis block, produced by the validator whose address is [key] *)
+  Definition n_gen : node :=
+    wire_step vf ao so Hk gid S1 key oc Hz node_empty (WTick 10 []).
+End PanicExample.
+
+Theorem C14_legacy_refuted :
+  update_utxos ureg_empty [PanicExample.t_empty] 10 = Err (EPanic PsNoOutputs) /\
+  pool_add PanicExample.vf PanicExample.ao PanicExample.so PanicExample.Sx
+           PanicExample.n1 PanicExample.t_empty = Err (EPanic PsNoOutputs) /\
+  ~ tx_ok PanicExample.t_empty.
+Proof.
+  split; [vm_compute; reflexivity|]. split; [vm_compute; reflexivity|].
+  intros Hk. apply Hk. reflexivity.
+Qed.
